@@ -1647,8 +1647,8 @@ fn run_delev_stream(ctx: &Ctx, wi: usize, cases: u32, rep: &mut Report) {
 }
 
 pub fn run(ctx: &Ctx) -> Report {
-    let n_ab: u32 = ctx.tier.pick(300, 30_000);
-    let n_c: u32 = ctx.tier.pick(800, 80_000);
+    let n_ab: u32 = ctx.tier.pick(600, 30_000);
+    let n_c: u32 = ctx.tier.pick(1600, 80_000);
     let mut rep = par_workers(ctx.threads, |wi| {
         let mut rep = Report::new(RULE);
         let mut cache: Cache = BTreeMap::new();
